@@ -46,6 +46,19 @@ func c11Progs() map[string]*Prog {
 		{Name: "d2", Cmds: []C{{Call: &Ref{Task: "mk", Vars: [][2]string{{"NAME", "two"}}}}}},
 		{Name: "mk", Dir: "out-{{.NAME}}", Cmds: []C{{Extra: "NAME={{.NAME}}", ShExtra: " pwd=$(basename $(pwd))"}}},
 	}}
+	// one concrete name of a wildcard task, called from several tasks of one invocation
+	m["wildcard-same-name-several-callers"] = &Prog{Tasks: []*T{
+		{Name: "w1", Cmds: []C{{Call: &Ref{Task: "gen-*", As: "gen-app"}}}},
+		{Name: "w2", Cmds: []C{{Call: &Ref{Task: "gen-*", As: "gen-app"}}, {Call: &Ref{Task: "gen-*", As: "gen-lib"}}}},
+		{Name: "w3", Deps: []Ref{{Task: "gen-*", As: "gen-app"}}, Cmds: []C{P()}},
+		{Name: "gen-*", Cmds: []C{{Extra: "M={{index .MATCH 0}}"}}},
+	}}
+	// values that are templates with nothing to render (a comment, a define block only)
+	m["templates-that-render-nothing"] = &Prog{Tasks: []*T{
+		{Name: "e1", Cmds: []C{{Extra: "first-{{.TASK}}"}}},
+		{Name: "e2", Env: [][2]string{{"EXTRA", "{{/* none */}}"}, {"DEF", `{{define "x"}}body{{end}}`}}, Cmds: []C{{ShExtra: " EXTRA=[$EXTRA] DEF=[$DEF]"}}},
+		{Name: "e3", Vars: [][2]string{{"NOTE", "{{/* nothing */}}"}}, Cmds: []C{{Extra: "NOTE=[{{.NOTE}}]"}}},
+	}}
 	m["matrix-ref-and-loops"] = &Prog{Tasks: []*T{
 		{Name: "m1", Cmds: []C{{Call: &Ref{Task: "looper", ListVars: [][2]string{{"L", "a b"}}}}}},
 		{Name: "m2", Cmds: []C{{Call: &Ref{Task: "looper", ListVars: [][2]string{{"L", "c"}}}}}},
